@@ -244,16 +244,20 @@ func (r *vfC17Rig) rlock() bool {
 // re-enters HandleError through Conn.Close.
 func vfC17LockSig(dump string, pool *hostConnPool) string {
 	for _, g := range strings.Split(dump, "\n\n") {
-		if !strings.Contains(g, "hostConnPool).HandleError") {
+		// frames only: a fill() goroutine started by HandleError names it in its "created by" line
+		if i := strings.Index(g, "\ncreated by "); i >= 0 {
+			g = g[:i]
+		}
+		if !strings.Contains(g, "hostConnPool).HandleError(") || !strings.Contains(g, "Mutex).Lock") {
 			continue
 		}
+		// the holder closed a connection from inside a pool method; a failed dial that closes its
+		// connection (Session.dialWithoutObserver) is only a victim waiting for the lock
 		switch {
-		case strings.Contains(g, "hostConnPool).Close"):
+		case strings.Contains(g, "hostConnPool).Close("):
 			return "Close-reenters-HandleError"
-		case strings.Contains(g, "hostConnPool).connect"):
+		case strings.Contains(g, "hostConnPool).connect(") && !strings.Contains(g, "dialWithoutObserver"):
 			return "connect-late-arrival-reenters-HandleError"
-		case strings.Contains(g, "hostConnPool).fill"):
-			return "fill-reenters-HandleError"
 		}
 	}
 	return "unknown"
@@ -311,7 +315,7 @@ func (r *vfC17Rig) await(exp vfC17Proj, d time.Duration) (vfC17Proj, bool) {
 		// (a fill that is still to end - the model says filling = FALSE, the pool still says TRUE - is
 		// waited for up to the deadline: fillingStopped sleeps before it takes the lock)
 		if i > 50 && !(got.Filling && !exp.Filling) && atomic.LoadInt32(&r.inDial) == r.parkedDials() &&
-			time.Since(time.Unix(0, atomic.LoadInt64(&r.lastEv))) > 700*time.Millisecond {
+			time.Since(time.Unix(0, atomic.LoadInt64(&r.lastEv))) > 1200*time.Millisecond {
 			return got, false
 		}
 		if i < 50 {
